@@ -11,7 +11,7 @@ from registry_api import T
 
 C19_BUFFER = dict(
     family="pool",
-    theorems=T("C19", "fault_safe", "fault_safe_destructible", "fault_only_when_scheduled", "throw_only_bad_alloc",
+    theorems=T("C19", "fault_safe", "fault_safe_destructible", "fault_safe_usable", "fault_only_when_scheduled", "throw_only_bad_alloc",
                "fault_safe_reachable", "asFound_allocate_badFree", "asFound_allocate_doubleFree", "asFound_assignCopy_useAfterFree"),
     # a defective tree aborts ~20% of the cases of a slice; the runner gives up after 400 restarts per slice
     slices={"quick": 32, "thorough": 64},
